@@ -8,7 +8,7 @@ import (
 
 func init() {
 	register(&Property{ID: "C10", Run: runC10,
-		Explain: "Peer scoring decided structurally (numerical equality with the v1.1 formula over histories is NOT decidable by static analysis): (R10.1) every access to the scorer's shared state (peerStats, peerIPs, deliveries and its records, the five counters) happens with the scorer's mutex held — entry points lock, helpers are only called with it held (caller-propagated lock state), needed because validation workers call the tracer concurrently with the heartbeat; (R10.2) write-site inventory of the five counters: every store is a zeroing, `+= 1` followed on every path by the clamp against the matching ...Cap, a squared deficit under its guards (active and below threshold; additionally inMesh on disconnect, because Prune already charged peers that left the mesh), an uncapped `+= 1`/`+= count` (invalid deliveries, behaviour penalty), `*= matching decay` followed by the decay-to-zero clamp, or a recap to a lowered cap; SetTopicScoreParams recaps exactly when either cap was lowered (path table with flag propagation); (R10.3) sign discipline: validators accept a penalty weight only if it is not positive (or its whole group is zero in non-atomic mode) and a reward weight only if not negative; (R10.4) retention: a record is deleted on disconnect only on the `score > 0` edge (IP tracking removed first), otherwise marked disconnected with expire = now + RetainScore; refreshScores deletes only disconnected, expired records (IP tracking removed) and never decays disconnected peers; (R10.5) accepted-parameter safety: every integer division/modulo in the scoring code whose divisor is a parameter is dominated by a positivity test; (R10.6) formula table: each term of score() multiplies its designated quantity (linear / squared / quantised-and-capped) by its designated weight under its designated guard, each weight is used exactly once, the topic cap sits between the topic sum and P5; (R10.7) the mesh-delivery window of duplicates is anchored at the validation time (zero for not-yet-validated); (R10.8) NaN hygiene of accepted parameters: every float parameter that reaches the score unconditionally — each weight of a term of score(), and each decay factor of a counter whose term is added without a comparison on the counter (inventory recomputed from score()/refreshScores()) — is rejected when NaN/Inf on every accepting path of its validator, or known to be zero there. (audit round) R10.8 covers every float64 field of the parameter structs plus a (0,1)-or-zero obligation per decay factor; (R10.9) the address list returned by getIPs has no repeated element; R10.2: the sticky penalty of Prune is charged only for a mesh member (scorer guard or membership at every tracer.Prune site). (R10.10) every peer credited for a delivery is on the delivery record; (R10.11) ticker periods that are parameters are positive on every accepting path; (R10.12) no store into a nil topic-parameter map; R10.8 also requires the counter caps not to be negative. NOT decided: numerical equality with the formula, decay timing, NaN/Inf freedom beyond parameter hygiene (overflow of finite values, a NaN returned by the application score callback), IP colocation against real connections.",
+		Explain: "Peer scoring decided structurally (numerical equality with the v1.1 formula over histories is NOT decidable by static analysis): (R10.1) every access to the scorer's shared state (peerStats, peerIPs, deliveries and its records, the five counters) happens with the scorer's mutex held — entry points lock, helpers are only called with it held (caller-propagated lock state), needed because validation workers call the tracer concurrently with the heartbeat; (R10.2) write-site inventory of the five counters: every store is a zeroing, `+= 1` followed on every path by the clamp against the matching ...Cap, a squared deficit under its guards (active and below threshold; additionally inMesh on disconnect, because Prune already charged peers that left the mesh), an uncapped `+= 1`/`+= count` (invalid deliveries, behaviour penalty), `*= matching decay` followed by the decay-to-zero clamp, or a recap to a lowered cap; SetTopicScoreParams recaps exactly when either cap was lowered (path table with flag propagation), and the recap loop clamps every record above the lowered cap (an iteration that neither refutes `counter > cap` nor finds the peer without statistics for the topic passes the clamp); (R10.3) sign discipline: validators accept a penalty weight only if it is not positive (or its whole group is zero in non-atomic mode) and a reward weight only if not negative; (R10.4) retention: a record is deleted on disconnect only on the `score > 0` edge (IP tracking removed first), otherwise marked disconnected with expire = now + RetainScore; refreshScores deletes only disconnected, expired records (IP tracking removed) and never decays disconnected peers; (R10.5) accepted-parameter safety: every integer division/modulo in the scoring code whose divisor is a parameter is dominated by a positivity test; (R10.6) formula table: each term of score() multiplies its designated quantity (linear / squared / quantised-and-capped) by its designated weight under its designated guard, each weight is used exactly once, the topic cap sits between the topic sum and P5; (R10.7) the mesh-delivery window of duplicates is anchored at the validation time (zero for not-yet-validated); (R10.8) NaN hygiene of accepted parameters: every float parameter that reaches the score unconditionally — each weight of a term of score(), and each decay factor of a counter whose term is added without a comparison on the counter (inventory recomputed from score()/refreshScores()) — is rejected when NaN/Inf on every accepting path of its validator, or known to be zero there. (audit round) R10.8 covers every float64 field of the parameter structs plus a (0,1)-or-zero obligation per decay factor; (R10.9) the address list returned by getIPs has no repeated element; R10.2: the sticky penalty of Prune is charged only for a mesh member (scorer guard or membership at every tracer.Prune site). (R10.10) every peer credited for a delivery is on the delivery record; (R10.11) ticker periods that are parameters are positive on every accepting path; (R10.12) no store into a nil topic-parameter map; R10.8 also requires the counter caps not to be negative. NOT decided: numerical equality with the formula, decay timing, NaN/Inf freedom beyond parameter hygiene (overflow of finite values, a NaN returned by the application score callback), IP colocation against real connections.",
 		Assume:  []string{"GossipSub v1.1 scoring function as specified (terms P1-P7)", "sync.Mutex semantics"},
 		Mutants: []Mutant{
 			{Name: "retention-reset-only-in-mesh", File: "score.go", Old: "\tfor topic, tstats := range pstats.topics {\n\t\ttstats.firstMessageDeliveries = 0\n", New: "\tfor topic, tstats := range pstats.topics {\n\t\tif !tstats.inMesh {\n\t\t\tcontinue\n\t\t}\n\t\ttstats.firstMessageDeliveries = 0\n", Expect: "R10.4"},
@@ -22,6 +22,7 @@ func init() {
 			{Name: "disconnect-penalty-without-inmesh", File: "score.go", Old: "\t\tif tstats.inMesh && tstats.meshMessageDeliveriesActive && tstats.meshMessageDeliveries < threshold {", New: "\t\tif tstats.meshMessageDeliveriesActive && tstats.meshMessageDeliveries < threshold {", Expect: "R10.2"},
 			{Name: "decay-wrong-parameter", File: "score.go", Old: "\t\t\ttstats.meshFailurePenalty *= topicParams.MeshFailurePenaltyDecay", New: "\t\t\ttstats.meshFailurePenalty *= topicParams.MeshMessageDeliveriesDecay", Expect: "R10.2"},
 			{Name: "decay-to-zero-dropped", File: "score.go", Old: "\t\t\tif tstats.invalidMessageDeliveries < ps.params.DecayToZero {\n\t\t\t\ttstats.invalidMessageDeliveries = 0\n\t\t\t}\n", New: "", Expect: "R10.2"},
+			{Name: "recap-only-active-records", File: "score.go", Old: "\t\tif tstats.meshMessageDeliveries > p.MeshMessageDeliveriesCap {\n\t\t\ttstats.meshMessageDeliveries = p.MeshMessageDeliveriesCap", New: "\t\tif tstats.meshMessageDeliveriesActive && tstats.meshMessageDeliveries > p.MeshMessageDeliveriesCap {\n\t\t\ttstats.meshMessageDeliveries = p.MeshMessageDeliveriesCap", Expect: "R10.2"},
 			{Name: "recap-needs-both-caps", File: "score.go", Old: "\trecap := false\n\tif p.FirstMessageDeliveriesCap < old.FirstMessageDeliveriesCap {\n\t\trecap = true\n\t}\n\tif p.MeshMessageDeliveriesCap < old.MeshMessageDeliveriesCap {\n\t\trecap = true\n\t}\n\tif !recap {", New: "\trecap := p.FirstMessageDeliveriesCap < old.FirstMessageDeliveriesCap && p.MeshMessageDeliveriesCap < old.MeshMessageDeliveriesCap\n\tif !recap {", Expect: "R10.2"},
 			{Name: "validator-accepts-positive-p4-weight", File: "score_params.go", Old: "\tif p.InvalidMessageDeliveriesWeight > 0 || isInvalidNumber(p.InvalidMessageDeliveriesWeight) {", New: "\tif isInvalidNumber(p.InvalidMessageDeliveriesWeight) {", Expect: "R10.3"},
 			{Name: "retain-positive-scores", File: "score.go", Old: "\tif ps.score(p) > 0 {\n\t\tps.removeIPs(p, pstats.ips)", New: "\tif ps.score(p) >= 0 {\n\t\tps.removeIPs(p, pstats.ips)", Expect: "R10.4"},
@@ -197,6 +198,25 @@ func runC10(c *RuleCtx) {
 					}
 				}
 				c.Check(found, "R10.2", f.Name, shortFn(ct.field)+" recapped", loop, "clamp present in the recap loop", "the recap loop does not clamp "+shortFn(ct.field))
+				if found {
+					// completeness: every record of the topic whose counter exceeds the lowered cap is clamped — an iteration
+					// that neither refutes `counter > cap` nor finds the peer without statistics for the topic passes the clamp
+					isCtr := isFieldOf(ct.field)
+					over := AtomCmp("counter > cap", isCtr, ">", tp(ct.cap))
+					hasTopic := AtomLookupOK("peer has statistics for the topic", isFieldOf("peerStats.topics"), nil)
+					cut := append(g.AtomEdges(over, false), g.AtomEdges(hasTopic, false)...)
+					field := ct.field
+					ok, why := p.LoopBodyMust(f, loop, cut, func(n ast.Node) bool {
+						for _, s2 := range p.StoresTo2(f, field) {
+							if s2.Node == n && s2.Kind == "assign" && tp(ct.cap)(p.R(f).Val(s2.RHS)) {
+								return true
+							}
+						}
+						return false
+					})
+					c.Check(ok, "R10.2", f.Name, shortFn(ct.field)+" recapped for every record above the lowered cap", loop, why,
+						"a record whose "+shortFn(ct.field)+" exceeds the lowered cap can be left unclamped (the clamp has a further condition): "+why)
+				}
 			}
 		}
 	}
